@@ -247,7 +247,7 @@ def check(run):
     run.coverage["rule"] = (
         "operation sequences over caller-built nested dicts/lists with the same containers reused by several calls "
         "(scenarios: file extensions, observed-data objects, SDOs with list/dict members, granular/object markings, "
-        "the stix2.markings API on objects and dicts, bundles and memory stores sharing objects, store get of parsed vs unknown-type dicts, ObjectFactory list "
+        "the stix2.markings API on objects and dicts, every entry point on unregistered-type dicts with allow_custom off and on, bundles and memory stores sharing objects, store get of parsed vs unknown-type dicts, ObjectFactory list "
         "defaults, attribute refusals; plus API/markings/serialization/filesystem/environment sequences that are "
         "snapshot-tested only; custom object/observable types with extension_name= sharing one extensions dict; plus 10 fixed witnesses of the missing-copy variants); a case is non-trivial when at "
         "least two library calls in it completed without raising")
@@ -394,8 +394,8 @@ def check(run):
         "harness/impl/c13_impl.py snap()/walk(): what counts as the deep value and the mutable containers of an object",
     ]
     run.assumptions += [
-        "validation is not modelled: where the library rejects an input the model predicts success and the comparison of "
-        "that case stops at that call",
+        "validation is not modelled: where the library rejects an input the model predicts success; the result of that "
+        "call is then ignored and the comparison continues with the calls that do not read it",
         "operations outside the modelled skeletons (see MANIFEST note) are covered by before/after snapshots only",
         "private attributes (leading underscore) may be assigned and deleted: the property speaks of an object's properties",
     ]
